@@ -248,15 +248,17 @@ def run_case(case):
             events = list(ev)
             kept_idx = [rgid[id(rg)] for rg in kept]
             f32 = {str(c) for c in flat.columns if str(flat[c].dtype) == "float32"}
-            groups = P.normalise_program(P.adapt_program(prog, f32))
+            import pandas as pd
+            ocat = {str(c) for c in flat.columns if isinstance(flat[c].dtype, pd.CategoricalDtype) and flat[c].dtype.ordered}
             try:
+                groups = P.normalise_program(P.adapt_program(prog, f32, ocat))
                 explained_rg = set()
                 # (b) decision-level (first, so that result-level failures it explains are not reported twice)
                 for (which, rid_, and_filters) in events:
                     i = rgid.get(rid_)
                     if i is None:
                         continue
-                    and_filters = P.adapt_program(list(and_filters), f32)
+                    and_filters = P.adapt_program(list(and_filters), f32, ocat)
                     w = P.group_has_qualifying(list(and_filters), cols, rg_rows[i])
                     counters["decisions_true_checked"] = counters.get("decisions_true_checked", 0) + 1
                     if w is not None:
